@@ -863,6 +863,23 @@ def rule_operands(ctx, g: Grammar) -> None:
                     raise AnalysisError(f"C19.operands: {f.qual} left the fragment: {ex}")
                 got[ident] = out.value if out.kind == "return" else out.kind
             chk.decide(got == {"a": 1, "b": 2, "zz": "zz"}, "C19.operands", f"{PARSER}::BDParser.expr `IDENT`", "an identifier evaluates to the value of the (first) variable of that name", f"{got}", "{'a': 1, 'b': 2, 'zz': 'zz'}", A.loc(PARSER, f.node))
+    # defined(<identifier>) is true exactly when a variable of that name exists
+    seen_defined = 0
+    for n2, syms, f in g.rules_of("bool_expr"):
+        if syms and syms[0] == "DEFINED":
+            seen_defined += 1
+            vars_ = tuple(Obj(name=n_, value=v_, t="constant") for n_, v_ in (("a", 1), ("b", 0)))
+            got = {}
+            for ident in ("a", "b", "zz"):
+                try:
+                    out = ordereval.Evaluator({"self": Obj(_variables=vars_), "token": Obj(IDENT=ident, _items=("defined", "(", ident, ")"))}, None, opaque_return=False).run(A.body_of(f.node))
+                except ordereval.Unsupported as ex:
+                    raise AnalysisError(f"C19.operands: {f.qual} left the fragment: {ex}")
+                got[ident] = bool(out.value) if out.kind == "return" else out.kind
+            chk.decide(got == {"a": True, "b": True, "zz": False}, "C19.operands", f"{PARSER}::BDParser.bool_expr `defined(IDENT)`", "defined(x) is true exactly when a variable named x exists (whatever its value)",
+                       f"{got}", "{'a': True, 'b': True, 'zz': False}", A.loc(PARSER, f.node))
+    if not seen_defined:
+        raise AnalysisError("C19.operands: the defined(IDENT) production was not found")
     for n2, syms, f in g.rules_of("constant_def"):
         if syms[:2] == ["constant_def", "IDENT"]:
             c = [x for x in A.calls_in(f.node, "Variable")]
@@ -911,6 +928,70 @@ def rule_sections(ctx, g: Grammar) -> None:
     reads = {n.slice.value for n in ast.walk(outer) if isinstance(n, ast.Subscript) and isinstance(n.slice, ast.Constant) and isinstance(n.slice.value, str)}
     if "section_id" not in reads:
         ctx.chk.report("C19.sections (report only): load_from_config numbers sections by list position; the parsed `section_id` and `options` are not read")
+
+
+def rule_delimited_literals(ctx, g: Grammar) -> None:
+    """C19.lex-delimited: a quoted literal ends at its first closing quote.  The language of the string-literal pattern (and of the
+    character-literal alternative of the integer pattern) is included in  q [^q]* q ; a longer match would swallow everything up to
+    the LAST quote of the line (`a = "x"; b = "y";` read as one string), i.e. mis-translate two definitions written on one line."""
+    ALPH = "ab1 =;,+\n"
+    found = 0
+    for name, rx, _is_fn in g.tokens:
+        for alt in regexlang.split_alternatives(rx):
+            body = alt.strip()
+            for q in ('"', "'"):
+                if not (body.startswith(q) or body.startswith("\\" + q)):
+                    continue
+                found += 1
+                try:
+                    L = regexlang.Lang(body.replace("*?", "*").replace("+?", "+"), "fullmatch", 0, ALPH + q)
+                    M = regexlang.Lang(f"{q}[^{q}\n]*{q}" if q == "'" else '"[^"\n]*"', "fullmatch", 0, ALPH + q)
+                except regexlang.Unsupported as ex:
+                    raise AnalysisError(f"C19.lex-delimited: pattern of {name} not in the regex fragment: {ex}")
+                n, cex = regexlang.included(L, M)
+                ctx.chk.decide(cex is None, "C19.lex-delimited", f"{LEXER}::BDLexer.{name} {q}...{q}", f"every match of {body!r} is one quoted literal on one line ({n} product states)",
+                               f"{body!r} matches {cex!r} as ONE literal", f"{q}[^{q}]*{q}", A.loc(LEXER, g.lcls.node))
+    ctx.chk.floor("C19.lex-delimited", 2)
+    if found < 2:
+        raise AnalysisError("C19.lex-delimited: string / character literal patterns not found")
+
+
+def rule_keyblob_options(ctx, g: Grammar) -> None:
+    """C19.keyblob-options: the option names the language documents for a keyblob block (docs/usage/elf2sb.md, "The keyblob contents
+    must define") are the names the encrypt / keywrap handlers look up in the keyblob content: an option spelled as documented must not
+    be silently ignored because the handler reads it under another name."""
+    import re as _re
+    DOC = "docs/usage/elf2sb.md"
+    text = ctx.repo.read(DOC)
+    m = _re.search(r"The keyblob contents must define:\s*```(.*?)```", text, _re.S)
+    if not m:
+        raise AnalysisError("C19.keyblob-options: the documented keyblob option list was not found in docs/usage/elf2sb.md")
+    documented = {}
+    for line in m.group(1).splitlines():
+        mm = _re.match(r"\s*(\w+)\s*\[([^\]]*)\]\s*-", line)
+        if mm:
+            documented[mm.group(1)] = "optional" in mm.group(2)
+    if len(documented) < 4:
+        raise AnalysisError(f"C19.keyblob-options: only {len(documented)} documented options parsed")
+    fn = ctx.own(HELPER, "SB21Helper", "_encrypt")
+    read: Set[str] = set()
+    for q in A.spaths(fn.node):
+        for st in q.sstmts:
+            for n in ast.walk(st):
+                key = None
+                if isinstance(n, ast.Subscript) and isinstance(n.slice, ast.Constant) and isinstance(n.slice.value, str):
+                    key, base = n.slice.value, n.value
+                elif isinstance(n, ast.Call) and isinstance(n.func, ast.Attribute) and n.func.attr == "get" and n.args and isinstance(n.args[0], ast.Constant) and isinstance(n.args[0].value, str):
+                    key, base = n.args[0].value, n.func.value
+                if key is not None and "keyblob_content" in norm(base):
+                    read.add(key)
+    if not read:
+        raise AnalysisError("C19.keyblob-options: no option look-up on keyblob_content found in SB21Helper._encrypt")
+    for name, optional in sorted(documented.items()):
+        ctx.chk.decide(name in read, "C19.keyblob-options", f"{HELPER}::SB21Helper._encrypt option `{name}`", f"documented option `{name}` is looked up under that name",
+                       f"`{name}` is documented{' (optional)' if optional else ''} but the handler reads only {sorted(read)}: the option is ignored", f"keyblob_content[0][{name!r}] / .get({name!r})", A.loc(HELPER, fn.node))
+    ctx.chk.floor("C19.keyblob-options", 5)
+    ctx.chk.units[DOC] = __import__("hashlib").sha256(text.encode()).hexdigest()[:16]
 
 
 def rule_comment_token(ctx) -> None:
@@ -962,6 +1043,8 @@ def run(ctx) -> None:
     ctx.rule(rule_operands, g)
     ctx.rule(rule_sections, g)
     ctx.rule(rule_comment_token)
+    ctx.rule(rule_delimited_literals, g)
+    ctx.rule(rule_keyblob_options, g)
     from . import c04 as _c04
     ctx.rule(lambda c: c.borrow(_c04.rule_setters, "C04.jump-sp", "C19.jump-sp"))
     ctx.chk.assumptions = ["SLY matches lexer patterns in definition order and resolves conflicts with the precedence tuple as documented",
